@@ -158,7 +158,7 @@ func (a *analysis) doCall(ctx int, fn *ssa.Function, fvs []*Val, x *ssa.Call, s 
 				if len(c.Fn.Blocks) == 0 {
 					continue
 				}
-				r, ns := a.call(c.Fn, args, c.Bind, a.ctxFor(ctx, x, c.Fn), s, false)
+				r, ns := a.call(c.Fn, args, c.Bind, a.ctxFor(ctx, nil, c.Fn), s, false)
 				if res == nil {
 					res = r
 				} else {
@@ -182,7 +182,7 @@ func (a *analysis) doCall(ctx int, fn *ssa.Function, fvs []*Val, x *ssa.Call, s 
 	for i, v := range args {
 		if v != nil && (len(v.Ptr) > 0 || len(v.Flds) > 0) {
 			_ = i
-			a.res.Escapes = append(a.res.Escapes, EscapeEvent{Instr: x, Fn: fn, Val: v, To: name})
+			a.addEscape(EscapeEvent{Instr: x, Fn: fn, Val: v, To: name})
 		}
 	}
 	if HasRefs(x.Type()) {
@@ -242,4 +242,13 @@ func Describe(v *Val) string {
 		p = append(p, l.String())
 	}
 	return "{" + strings.Join(p, ",") + "}"
+}
+
+func (a *analysis) addEscape(e EscapeEvent) {
+	k := fmt.Sprintf("esc|%p|%s", e.Instr, e.Val.sig())
+	if a.writes[k] {
+		return
+	}
+	a.writes[k] = true
+	a.res.Escapes = append(a.res.Escapes, e)
 }
